@@ -363,6 +363,9 @@ def r7_named_fields(ctx):
     ctx.ob(hn.where, "flag k is looked up by the k-th declared key", ok, "", key="C02-R7|flag-by-number")
 
 
+from ..through_time import make_rule as _mk_tt
+_through_time = _mk_tt("C02")
+
 RULES = [
     ("C02-R1", r1_parser_exhaustive),
     ("C02-R2", r2_coordinate_shift),
@@ -372,4 +375,5 @@ RULES = [
     ("C02-R6", r6_field_table),
     ("C02-R7", r7_named_fields),
     ("C02-R8", _crlf_line_ends),
+    ("C02-T1", _through_time),
 ]
